@@ -1,0 +1,10 @@
+//go:build verif
+
+package hybridqp
+
+// Contracts for /verif (gvc). Comment-only file.
+
+//@ prop C08
+//@ func Interval.IsZero
+//@   ensures result == (i.Duration == 0)
+//@   assigns nothing
